@@ -241,5 +241,5 @@ def run(ctx, rep):
             if "callee" in t_ and callee(t_).startswith("rustic_core::") and callee(t_) in prog.bodies:
                 fam.append(prog.bodies[callee(t_)])
         fam += [c_ for c_ in prog.closures_of(f_) if c_ not in fam]
-    has64 = any(s[0] == "=" and s[2][0] == "bin" and s[2][1] == "Eq" and any(o[0] == "k" and o[1].get("v") == 64 for o in (s[2][2], s[2][3])) for f in fam for blk in f.blocks for s in blk["s"])
+    has64 = any(s[0] == "=" and s[2][0] == "bin" and s[2][1] in ("Eq", "Ne") and any(o[0] == "k" and o[1].get("v") == 64 for o in (s[2][2], s[2][3])) for f in fam for blk in f.blocks for s in blk["s"])
     rep.check("C19.d", "list/64-char-filter", has64, where=CL.loc(), what="the cache listing accepts only names of exactly 64 characters")
